@@ -24,7 +24,9 @@ FORMAT_COMPRESSIONS = {
 }
 # shard-level metadata values are nested on purpose (a list inside the dict): a writer that keeps a shallow copy of
 # the caller's object would still alias the inner list
-MD = {"None": None, "A": {"k": ["A"]}, "B": {"k": ["B"]}}
+# (every non-empty metadata object carries a tuple: a Python value whose JSON form - a list - differs from it; "does the
+# metadata change" must be decided on what the caller passes, not on what a serialisation round trip makes of it)
+MD = {"None": None, "A": {"k": ["A"], "w": (0, 1)}, "B": {"k": ["B"], "w": (0, 1)}}
 # flat values for the checks of the per-metadata limit, which is documented as best effort ("hashed as a tuple of sorted
 # items") and raises TypeError for unhashable (nested) values
 MD_FLAT = {"None": None, "A": {"k": "A"}, "B": {"k": "B"}}
@@ -260,9 +262,9 @@ class Projector:
 def md_name(md) -> str:
     if not md:
         return "None"
-    if isinstance(md, dict) and set(md) == {"k"}:
+    if isinstance(md, dict) and set(md) - {"w"} == {"k"}:
         v = md["k"]
-        if isinstance(v, list) and len(v) == 1:
+        if isinstance(v, (list, tuple)) and len(v) == 1:
             v = v[0]
         if v in ("A", "B"):
             return v
@@ -417,7 +419,7 @@ class Replayer:
         self.nsess = 0
         self.next_ex = 1
         self.sess_of = {}
-        self.caller_md = {"k": ["A"]}
+        self.caller_md = {"k": ["A"], "w": (0, 1)}
         self.names = _NameSeq(writer_names)
         self.problems: list[tuple[str, str]] = []  # (kind, description): behaviour the specification forbids
         import sedpack.io.dataset_writing as dw
